@@ -37,3 +37,87 @@ PROPS["C16"] = dict(
                  "CRC closure rests on the monitored affinity of crc::compute (sampled, all 256 table indices swept at 6 offsets)",
                  "inputs longer than one MTU (1472 bytes) are never handed to the reader by the endpoints and are not generated"],
 )
+
+# ---------------------------------------------------------------------------------------------
+# hcsim-based properties (two real HalfConnections over a faulty link on the virtual clock)
+
+def hc(family, q, t, tier, prop, **params):
+    p = {"prop": prop}
+    p.update(params)
+    return dict(family=family, n=T(tier, q, t), params=p)
+
+HC_ASSUME = [
+    "virtual clock / seeded rng shims (cargo feature verif) do not change behaviour other than the time and random source",
+    "the harness applies the same call order as Client::step/Server::step (flush, read, step, receive)",
+    "payload identity: packets of 0..3 bytes cannot be told apart and are sent on one channel, never TimeSensitive, all-Reliable or none-Reliable per scenario",
+]
+
+def hc_prop(pid, runs, rule, level_text, technique, floor, note="", require=None, also=None):
+    PROPS[pid] = dict(
+        runs=runs, rule=rule, level_text=level_text, technique=technique,
+        level_note=note or "Trusted: virtual clock/rng shims, the reference wire decoder, the boundary model in harness/src/model.rs. Held only on the scenarios listed in the evidence.",
+        floor=floor, require_counters=require or [], assumptions=HC_ASSUME, also_claims=also or [])
+
+GEN = ("Scenarios are drawn from seeded generators (window 4..4096, nonces incl. near 2^32/2^20 wrap, 1..64 channels, four modes, "
+       "payload classes incl. fragment-boundary sizes, rates, receive allocations, step cadences 0.1..200 ms, per-direction latency "
+       "0..400 ms, fault phases with loss/dup/reorder/corruption/blackout per frame type, then a fair network until quiescence). "
+       "distinct = hash of the scenario's counter vector and delivered sequence. ")
+
+hc_prop("C01",
+    lambda tier: [hc("faulty", 3000, 150000, tier, "C01", packets=T(tier, 300, 1500)),
+                  hc("fault-then-fair", 800, 30000, tier, "C01"),
+                  hc("ideal", 400, 10000, tier, "C01")],
+    GEN + "non-trivial: >= 20 packets delivered and >= 1 frame dropped and >= 1 duplicated or delayed past a later frame.",
+    "Offline history oracle over every delivery: payload identity maps each delivered payload to the submitted packet; checks unknown/altered/duplicate/out-of-order-per-channel deliveries. Exploration of seeded fault schedules, not a proof.",
+    "history oracle (payload identity, per-channel subsequence) over fault-injected executions",
+    dict(quick=800, thorough=20000), require=["deliveries", "fate_drop", "fate_dup", "fate_corrupt"])
+
+hc_prop("C02",
+    lambda tier: [hc("fault-then-fair", 2500, 100000, tier, "C02"),
+                  hc("faulty", 800, 30000, tier, "C02"),
+                  hc("blackout", 300, 10000, tier, "C02")],
+    GEN + "non-trivial: scenario reached quiescence and >= 1 Reliable packet had a fragment sent >= 3 times before being delivered.",
+    "Safety: at every delivery no earlier Reliable packet of the channel is undelivered. Bounded liveness: after the fault phase, progress-based stall detector on virtual time (no delivery / first transmission / ack / window movement for max(600 s, 4*RTO)); at quiescence every Reliable packet delivered exactly once, nothing pending, send buffer zero. Unbounded 'eventually' is restated as bounded progress; horizon without stall is inconclusive.",
+    "history oracle + virtual-time progress monitor over fault-then-fair executions",
+    dict(quick=500, thorough=15000), require=["deliveries", "scenarios_quiescent"])
+
+hc_prop("C05",
+    lambda tier: [hc("ideal", 2500, 100000, tier, "C05", packets=T(tier, 300, 1500))],
+    GEN + "ideal family: no faults, constant latency per direction, bursts above window / allocation / flush budget, both directions. non-trivial: >= 50 packets delivered.",
+    "Equality oracle: delivered sequence (all channels) must be the submission sequence minus TimeSensitive packets; a fully transmitted TimeSensitive packet must not be skipped; at quiescence every non-TimeSensitive packet delivered exactly once.",
+    "sequence-equality oracle over fault-free executions",
+    dict(quick=800, thorough=20000), require=["deliveries"])
+
+hc_prop("C12",
+    lambda tier: [hc("faulty", 2000, 80000, tier, "C12"),
+                  hc("rate", 600, 20000, tier, "C12"),
+                  hc("ideal", 400, 10000, tier, "C12")],
+    GEN + "non-trivial: >= 1 fragment retransmitted and >= 1 ack group processed.",
+    "Reference model fed from the wire and from the ack frames handed to the sender (acceptance rule: bitfield non-zero, all ids in the sender's log, nonce parity) decides per fragment whether a (re)transmission is allowed for its mode.",
+    "reference-model monitor on wire frames and ack inputs",
+    dict(quick=500, thorough=15000), require=["frag_retx", "ack_groups_processed", "sub_ts"])
+
+hc_prop("C13",
+    lambda tier: [hc("rate", 2500, 80000, tier, "C13"),
+                  hc("faulty", 600, 20000, tier, "C13"),
+                  hc("ideal", 300, 10000, tier, "C13")],
+    GEN + "rate family: ceilings 1472 B/s..2^32-1 on either side, backlogs, 0..20 application flushes per step, pauses then bursts. non-trivial: >= 100 frames on the wire.",
+    "Exact byte counting at FrameSink::send on virtual time; every interval within a 600-event look-back plus a running-minimum form for long intervals, against B*(dt+R)+1472 (R = larger of the RTT estimates after the last two steps).",
+    "interval byte-count oracle on the virtual-time wire trace",
+    dict(quick=800, thorough=20000), require=["rate_events"])
+
+hc_prop("C15",
+    lambda tier: [hc("ack-twin", 1200, 60000, tier, "C15")],
+    GEN + "each scenario is run twice with the same seed; the second run hands the sender forged / replayed ack frames composed against its live state (wrong parity over known frames, future / forgotten / straddling ids, verbatim replays of delivered acks). non-trivial: >= 1 injected group over known frames or replay.",
+    "Twin-run equality: emitted frame bytes and times, rtt_s, allowed rate, send_buffer_size, is_send_pending after every step must be identical with and without the hostile acks.",
+    "twin-run differential monitor",
+    dict(quick=400, thorough=15000), require=["inj_ack_frames", "inj_wrong_nonce_over_known_frames", "inj_replay_of_delivered_ack"])
+
+hc_prop("C20",
+    lambda tier: [hc("faulty", 2000, 80000, tier, "C20"),
+                  hc("ideal", 600, 20000, tier, "C20"),
+                  hc("alloc-pair", 600, 20000, tier, "C20")],
+    GEN + "non-trivial: >= 1 TimeSensitive packet discarded and >= 1 window ack released >= 2 packets.",
+    "Boundary model (submissions, wire, accepted window acks) bounds send_buffer_size() after every call: [L, U] with U-L = stale TimeSensitive packets not yet provably discarded; exact value whenever nothing is pending; never above the total submitted.",
+    "reference-model monitor on a public observable",
+    dict(quick=300, thorough=8000), require=["sbs_checks", "not_pending_observations", "ts_discarded"])
